@@ -28,4 +28,33 @@ pub mod sync {
     // loom's Lazy is only a fn pointer + marker
     unsafe impl<T: 'static, F> Sync for Lazy<T, F> {}
     unsafe impl<T: 'static, F> Send for Lazy<T, F> {}
+
+    /// `once_cell::sync::OnceCell` (the subset the subject uses): a loom-modelled lock around a lazily set value that
+    /// is re-created in every explored execution.
+    pub struct OnceCell<T: 'static> {
+        cell: loom::lazy_static::Lazy<loom::sync::Mutex<Option<&'static T>>>,
+    }
+
+    fn mk<T: 'static>() -> loom::sync::Mutex<Option<&'static T>> { loom::sync::Mutex::new(None) }
+
+    impl<T: 'static> OnceCell<T> {
+        pub const fn new() -> Self { OnceCell { cell: loom::lazy_static::Lazy { init: mk::<T>, _p: PhantomData } } }
+        fn slot(&self) -> &'static loom::sync::Mutex<Option<&'static T>> {
+            let s: &'static Self = unsafe { &*(self as *const Self) };
+            s.cell.get()
+        }
+        pub fn get(&self) -> Option<&T> { *self.slot().lock().unwrap() }
+        pub fn get_or_try_init<E, F: FnOnce() -> Result<T, E>>(&self, f: F) -> Result<&T, E> {
+            let mut g = self.slot().lock().unwrap();
+            if let Some(v) = *g { return Ok(v); }
+            let v: &'static T = Box::leak(Box::new(f()?));
+            *g = Some(v);
+            Ok(v)
+        }
+        pub fn get_or_init<F: FnOnce() -> T>(&self, f: F) -> &T {
+            match self.get_or_try_init(|| Ok::<T, std::convert::Infallible>(f())) { Ok(v) => v, Err(e) => match e {} }
+        }
+    }
+    unsafe impl<T: 'static> Sync for OnceCell<T> {}
+    unsafe impl<T: 'static> Send for OnceCell<T> {}
 }
